@@ -22,6 +22,7 @@ THEOREMS = ["XV.Props.C14." + t for t in (
     "iterator_remove_leaves_subtree", "iterator_total",
     "walker_std_of_rule", "walker_std_of_code", "walker_next_spec", "walker_eq_filter", "walker_child_sibling_parent_spec",
     "walker_eq_filter_code_partial", "walker_code_deviates", "split_code_breaks_validity",
+    "split_detached_code_breaks_validity", "insertNode_code_raises_after_split",
     "deeplist_item_spec", "deeplist_length_spec", "deeplist_step", "deeplist_cache_transparent",
     "range_fixup_spec", "insertedText_asIs_wrong", "bounds_insertData", "bounds_deleteData", "bounds_setData",
     "bounds_removeChild", "bounds_insertBefore", "range_valid_preserved_partial", "compareBoundaryPoints_order",
@@ -435,19 +436,54 @@ class Judge:
             it["pos"] = "start"
         return None
 
-    def check_ranges_valid(self, nodes, views, op):
+    API = {"sp": "splitText", "rin": "insertNode", "rsu": "surroundContents", "rss": "setStart", "rse": "setEnd", "rsb": "setStartBefore",
+           "rsa": "setStartAfter", "reb": "setEndBefore", "rea": "setEndAfter", "rsn": "selectNode", "rsc": "selectNodeContents",
+           "rco": "collapse", "rdc": "deleteContents", "rex": "extractContents", "rcl": "cloneContents", "rm": "removeChild",
+           "ap": "appendChild", "ib": "insertBefore", "rp": "replaceChild", "nz": "normalize", "di": "insertData", "dd": "deleteData",
+           "dr": "replaceData", "ds": "setData", "da": "appendData", "rc": "createRange"}
+
+    def split_explains(self, prev, pviews, op, k):
+        """Is the invalidity of range k after `op` the known consequence of splitText leaving a boundary point that stood directly
+        after the split Text node, (parent, index + 1), between the two halves?  Only then the plain category is used (an open
+        known finding); every other way of ending up with an invalid range gets a category of its own."""
+        f = op.split(); o = f[0]
+        pr = (pviews or {}).get("R", {}).get(k)
+        if prev is None or not isinstance(pr, tuple):
+            return False
+        try:
+            if o == "sp":
+                t = int(f[1])
+            elif o in ("rin", "rsu"):
+                r = pviews["R"].get(int(f[1]))
+                if not isinstance(r, tuple): return False
+                t = r[0]
+            else:
+                return False
+            if t not in prev or prev[t].kind not in CHARTEXT or prev[t].parent is None:
+                return False
+            par = prev[t].parent
+            i = kids(prev, par).index(t)
+            pts = ((pr[0], pr[1]), (pr[2], pr[3]))
+            if o == "rsu":     # the extraction that precedes the split may have slid a later point of the parent down to index + 1
+                return any(c == par and off >= i + 1 for c, off in pts)
+            return any((c, off) == (par, i + 1) for c, off in pts)
+        except (ValueError, IndexError, KeyError):
+            return False
+
+    def check_ranges_valid(self, nodes, views, op, prev=None, pviews=None):
         for k, b in views["R"].items():
             if not isinstance(b, tuple): continue
             sc, so, ec, eo, col = b
             if sc not in nodes or ec not in nodes:
                 return ("range-container-not-a-live-node", "after %r range %d has a boundary container that is not a live node: %s" % (op, k, b))
+            sfx = "" if self.split_explains(prev, pviews, op, k) else "-after-" + self.API.get(op.split()[0], op.split()[0])
             if root_of(nodes, sc) != root_of(nodes, ec):
-                return ("range-containers-in-different-trees", "after %r the boundary points of range %d are in different trees: %s" % (op, k, b))
+                return ("range-containers-in-different-trees" + sfx, "after %r the boundary points of range %d are in different trees: %s" % (op, k, b))
             if so > length_of(nodes, sc) or eo > length_of(nodes, ec):
                 return ("range-offset-out-of-bounds", "after %r range %d = %s has an offset beyond its container (lengths %d, %d)" % (
                     op, k, b, length_of(nodes, sc), length_of(nodes, ec)))
             if bp_key(nodes, sc, so) > bp_key(nodes, ec, eo):
-                return ("range-start-after-end", "after %r range %d = %s starts after it ends" % (op, k, b))
+                return ("range-start-after-end" + sfx, "after %r range %d = %s starts after it ends" % (op, k, b))
             if (col == 1) != (sc == ec and so == eo):
                 return ("range-collapsed-flag", "after %r range %d = %s reports collapsed=%s" % (op, k, b, col))
         return None
@@ -488,11 +524,14 @@ class Judge:
                 r = res.split()[1]
                 k = int(r[1:])
                 p = prev[t].parent
-                if b[0] == t: return (k, b[1] - off) if b[1] > off else b
+                if b[0] == t:
+                    if b[1] > off and p is None:
+                        return ("split-detached", (t, off), (k, b[1] - off))   # parentless: stay at the new end or follow; validity decides
+                    return (k, b[1] - off) if b[1] > off else b
                 if p is not None and b[0] == p:
                     i = kids(prev, p).index(t)
                     if b[1] > i + 1: return (p, b[1] + 1)
-                    if b[1] == i + 1: return None      # DOM Level 2 does not say; validity decides
+                    if b[1] == i + 1: return "split-gap"   # DOM Level 2 does not say which side of the new node; validity decides
                 return b
         except (ValueError, IndexError, KeyError):
             return None
@@ -595,7 +634,7 @@ class Judge:
                     return ("taglist-not-the-matching-elements-of-the-current-tree", "after %r list %d (%r under %d) is %s; the matching elements "
                             "of the current tree are %s" % (op, k, self.lists[k]["tag"], self.lists[k]["root"], val, e))
         # ---------------- ranges: validity after every operation
-        v = self.check_ranges_valid(nodes, views, op)
+        v = self.check_ranges_valid(nodes, views, op, prev, pviews)
         if v: return v
         # ---------------- ranges: movement per DOM Range 2.12 for the primitive mutations
         if o in ("di", "dd", "dr", "ds", "da", "rm", "ap", "ib", "sp") and ok:
@@ -604,6 +643,17 @@ class Judge:
                 if not isinstance(b, tuple) or not isinstance(pb, tuple): continue
                 for which, (c0, o0), (c1, o1) in (("start", (pb[0], pb[1]), (b[0], b[1])), ("end", (pb[2], pb[3]), (b[2], b[3]))):
                     e = self.expected_fixup(prev, nodes, op, res, (c0, o0))
+                    if e == "split-gap":
+                        # the point directly after the split node: before or after the new node, nowhere else
+                        if (c1, o1) not in ((c0, o0), (c0, o0 + 1)):
+                            return ("range-fixup-splitText", "%r: the %s point of range %d stood directly after the split node at (%s,%s) "
+                                    "and moved to (%s,%s)" % (op, which, k, c0, o0, c1, o1))
+                        continue
+                    if isinstance(e, tuple) and e[0] == "split-detached":
+                        if (c1, o1) not in e[1:]:
+                            return ("range-fixup-splitText", "%r (parentless node): the %s point of range %d moved from (%s,%s) to (%s,%s)" % (
+                                op, which, k, c0, o0, c1, o1))
+                        continue
                     if e is not None and e != (c1, o1):
                         return ("range-fixup-%s" % {"di": "insertData", "dd": "deleteData", "dr": "replaceData", "ds": "setData", "da": "appendData",
                                                     "rm": "removeChild", "ap": "insertBefore", "ib": "insertBefore", "sp": "splitText"}[o],
@@ -732,6 +782,12 @@ def judge_history(ops, outs):
             r, t, _ = split3(l)
             stripped.append(r + " | " + (t or ""))
     base = _C13_JUDGE(ops, stripped)
+    if base is not None and base[1].endswith("-accepted"):
+        # DOM Level 3 Core, insertBefore: "Inserting a node before itself is implementation dependent" -- the C13 judge asks
+        # such a call to raise when the node could not be inserted where it already is; that is no contradiction
+        f = ops[base[0]].split()
+        if f[0] == "ib" and len(f) == 4 and f[2] == f[3]:
+            base = None
     jd = Judge()
     for i, (op, line) in enumerate(zip(ops, outs)):
         if base is not None and i >= base[0]:
@@ -765,28 +821,77 @@ K.judge_history = judge_history
 PREFIX = ["reset 1", "lmode 1", "ce 0 61", "ce 0 62", "ce 0 63", "ct 0 41.42.43", "ct 0 44.45", "cc 0 4d", "ce 0 64",
           "ap 0 1", "ap 1 2", "ap 2 4", "ap 1 3", "ap 3 5", "ap 1 6",
           "ni 0 65535 0", "nn 0", "ni 1 5 1", "nn 1", "nn 1", "tw 0 65535 2", "tw 1 4 2", "wnn 0", "tw 0 65535 0", "wsc 2 6", "gl 0 2a", "gl 1 62",
-          "rc 0", "rss 0 4 1", "rse 0 5 1", "rc 0", "rss 1 1 1", "rse 1 1 2"]
+          "rc 0", "rss 0 4 1", "rse 0 5 1", "rc 0", "rss 1 1 1", "rse 1 1 2",
+          # iterator 2: over the whole document, walked to the end (0 1 2 4 3 5 6) and one step back: it stands BEFORE the
+          # last node of its root's subtree (the removal fix-up of a backward iterator with nothing after the removed subtree)
+          "ni 0 65535 0", "nn 2", "nn 2", "nn 2", "nn 2", "nn 2", "nn 2", "nn 2", "np 2"]
 D0, A, B, C, T, U, M, X = 0, 1, 2, 3, 4, 5, 6, 7
 
 def exhaustive_ops():
-    ops = ["rm 1 2", "rm 2 4", "rm 0 1", "rm 1 3", "ap 3 2", "ib 1 3 2", "ap 1 4", "ib 1 7 3", "ap 2 7", "rp 1 7 2", "rp 1 7 3",
+    """operations that change the tree or a view: every sequence of <= 2 of them is run"""
+    ops = ["rm 1 2", "rm 2 4", "rm 0 1", "rm 1 3", "rm 1 6", "ap 3 2", "ib 1 3 2", "ap 1 4", "ib 1 7 3", "ap 2 7", "rp 1 7 2", "rp 1 7 3",
            "di 4 1 58.59", "di 5 0 58", "dd 4 0 2", "dd 5 1 5", "dr 4 1 1 58.59.5a", "ds 4 51", "da 4 51",
            "sp 4 1", "sp 4 2", "sp 5 1", "nz 1", "rnm 0 2 7a", "rnm 0 3 62", "rnm 0 7 62", "sa 2 69 76",
-           "nn 0", "np 0", "nn 1", "np 1", "nd 1", "ni 1 65535 0", "ni 2 1 2",
+           "nn 0", "np 0", "nn 1", "np 1", "nn 2", "np 2", "nd 1", "ni 1 65535 0", "ni 2 1 2",
            "wnn 0", "wpn 0", "wf 0", "wl 0", "wns 0", "wps 0", "wp 0", "wsc 0 5", "wsc 0 3", "wnn 1", "wpn 1", "wsc 1 5", "wpn 2", "wps 2",
            "lq 0", "lq 1", "li 0 1", "ll 1",
-           "rts 0", "rts 1", "rcb 0 0 1", "rcb 0 3 1", "rcb 1 1 0", "rdc 0", "rex 0", "rcl 0", "rdc 1", "rex 1", "rin 0 7", "rin 1 7",
+           "rdc 0", "rex 0", "rcl 0", "rdc 1", "rex 1", "rin 0 7", "rin 1 7",
            "rsu 1 7", "rsn 1 4", "rsn 1 2", "rsc 1 2", "rsc 0 4", "rco 0 1", "rss 1 5 2", "rse 0 1 0", "rse 0 4 3", "rse 0 2 1", "sp 4 0", "rse 1 1 3", "rsb 1 6", "rea 0 3", "rdt 0"]
     return ops
 
+def observer_ops():
+    """pure observers (they change neither the tree nor a view): run alone and as the LAST operation after every operation of
+    `exhaustive_ops` -- all four CompareHow values in both directions (after a removal / insertion slid an offset next to
+    the child that holds the other point), toString"""
+    return ["rts 0", "rts 1"] + ["rcb %d %d %d" % (k, how, 1 - k) for k in (0, 1) for how in (0, 1, 2, 3)]
+
 def gen_exhaustive(maxlen):
-    ops = exhaustive_ops()
+    ops, obs = exhaustive_ops(), observer_ops()
     hists = []
     def rec(prefix, depth):
         if depth: hists.append(PREFIX + prefix)
         if depth == maxlen: return
         for o in ops: rec(prefix + [o], depth + 1)
+        for o in obs: hists.append(PREFIX + prefix + [o])
     rec([], 0)
+    return hists
+
+# ----------------------------------------------------------------------------- geometry tier: all pairs of boundary points
+GEO_PREFIX = ["reset 1", "lmode 1", "ce 0 61", "ce 0 62", "ce 0 63", "ct 0 41.42.43", "ct 0 44.45", "cc 0 4d", "ce 0 64",
+              "ap 0 1", "ap 1 2", "ap 2 4", "ap 1 3", "ap 3 5", "ap 1 6", "rc 0", "rc 0"]
+GEO_POINTS = [(0, 0), (0, 1), (1, 0), (1, 1), (1, 2), (1, 3), (2, 0), (2, 1), (3, 0), (3, 1), (4, 0), (4, 1), (4, 2), (4, 3),
+              (5, 0), (5, 1), (5, 2), (6, 0), (6, 1), (7, 0)]
+
+def gen_scenarios():
+    """fixed histories for situations the prefix tree of the exhaustive tier does not contain"""
+    return [
+        # a range inside a PARENTLESS Text node that is split between its boundary points
+        ["reset 1", "lmode 1", "ct 0 41.42.43", "rc 0", "rss 0 1 0", "rse 0 1 3", "sp 1 1", "rts 0"],
+        ["reset 1", "lmode 1", "ct 0 41.42.43", "rc 0", "rss 0 1 2", "rse 0 1 3", "sp 1 1", "rts 0"],
+        ["reset 1", "lmode 0", "cd 0 41.42.43", "rc 0", "rss 0 1 1", "rse 0 1 3", "sp 1 2", "rco 0 0"],
+        # insertNode with the start point inside the Text value of an attribute: an Element cannot go under an Attr
+        ["reset 1", "lmode 1", "ce 0 61", "ap 0 1", "sa 1 69 41.42.43", "ce 0 62", "rc 0", "rss 0 3 1", "rin 0 4", "rts 0"],
+        ["reset 1", "lmode 1", "ce 0 61", "ap 0 1", "sa 1 69 41.42.43", "ce 0 62", "rc 0", "rss 0 3 0", "rin 0 4"],
+        # a backward iterator whose reference node is the last node of its root's subtree, removed directly and with an ancestor
+        ["reset 1", "lmode 1", "ce 0 61", "ce 0 62", "ct 0 41", "ap 0 1", "ap 1 2", "ap 2 3", "ni 1 65535 0", "nn 0", "nn 0", "nn 0",
+         "np 0", "rm 2 3", "nn 0", "np 0", "np 0"],
+        ["reset 1", "lmode 1", "ce 0 61", "ce 0 62", "ct 0 41", "ap 0 1", "ap 1 2", "ap 2 3", "ni 1 65535 0", "nn 0", "nn 0", "nn 0",
+         "np 0", "rm 1 2", "nn 0", "np 0"],
+    ]
+
+def gen_geometry():
+    """doc{a{b{'ABC'},c{'DE'},<!--M-->}} and the parentless element d: for EVERY ordered pair (p, q) of boundary points of these
+    trees, compareBoundaryPoints with all four CompareHow values between the ranges [p,p] and [q,q], setStart(q) on [p,p] and
+    setEnd(q) on [p,p] (the setters compare the new point with the other end to decide whether the range collapses).  One
+    history per p."""
+    hists = []
+    for p in GEO_POINTS:
+        h = list(GEO_PREFIX)
+        for q in GEO_POINTS:
+            h += ["rss 0 %d %d" % p, "rco 0 1", "rss 1 %d %d" % q, "rco 1 1",
+                  "rcb 0 0 1", "rcb 0 1 1", "rcb 0 2 1", "rcb 0 3 1",
+                  "rss 0 %d %d" % q, "rss 0 %d %d" % p, "rco 0 1", "rse 0 %d %d" % q]
+        hists.append(h)
     return hists
 
 SHOWS = [65535, 65535, 1, 4, 5, 0x85, 0x1FF, 0x4]
@@ -1013,6 +1118,27 @@ def compare_and_judge(ctx, hists, model, impl, origin, max_judge=120, spec=False
                     "the specification judge finds no fault in the implementation's outputs; first: %s" % (len(unexplained), origin, " / ".join(h[-3:])),
             "replay": {"correspondence": "views", "history": h, "model": mo, "impl": io}})
 
+def judge_sample(ctx, hists, origin):
+    """The judge on the implementation's outputs of whole histories, whether or not a model disagrees: what the property
+    states must hold of the implementation even where both Lean configurations happen to share its behaviour."""
+    if not hists:
+        return
+    tj = time.time()
+    outs, _ = K.run_impl(hists, full=True, wd_ms=3000, budget=10 ** 6)
+    found = {}
+    for h, o in zip(hists, outs):
+        j = judge_history(h, o)
+        if j is not None:
+            found.setdefault(j[1], []).append((h, j))
+    ctx.stats["independently_judged_histories"] = ctx.stats.get("independently_judged_histories", 0) + len(hists)
+    for cat, lst in sorted(found.items()):
+        ctx.stats.setdefault("violation_witnesses", {})[cat] = ctx.stats.get("violation_witnesses", {}).get(cat, 0) + len(lst)
+        if any(v["key"] == K.key_of(cat) for v in ctx.violations):
+            continue
+        h, j = min(lst, key=lambda t: len(t[0]))
+        report(ctx, h, j, origin + " (judged independently of the models)")
+    common.log("c14 %s: %d histories judged independently of the models %.1fs" % (origin, len(hists), time.time() - tj))
+
 def nontrivial_count(hists, model):
     seen = set()
     for h, m in zip(hists, model):
@@ -1043,6 +1169,23 @@ def correspondence(ctx):
     ctx.samples += [{"history": ex[k][len(PREFIX):], "model": m[k][-1], "impl": (i[k] or [None])[-1]} for k in (0, len(ex) // 3, len(ex) - 1)]
     common.log("c14 exhaustive tier %.1fs (%d histories)" % (time.time() - t0, len(ex)))
     all_ev = list(ev)
+    # ---- geometry tier: all pairs of boundary points of the prefix tree, every run
+    tg = time.time()
+    geo = gen_geometry()
+    gm = K.run_model(geo)
+    gi, gev = K.run_impl(geo, wd_ms=2000, budget=60)
+    compare_and_judge(ctx, geo, gm, gi, "geometry")
+    compare_and_judge(ctx, geo, run_model_spec(geo), gi, "geometry", spec=True)
+    ctx.stats["geometry_point_pairs"] = len(GEO_POINTS) ** 2
+    sc = gen_scenarios()
+    sm = K.run_model(sc)
+    si, sev = K.run_impl(sc, wd_ms=2000, budget=60)
+    compare_and_judge(ctx, sc, sm, si, "scenarios")
+    compare_and_judge(ctx, sc, run_model_spec(sc), si, "scenarios", spec=True)
+    all_ev += list(sev)
+    judge_sample(ctx, sc + geo + [h for h in ex if len(h) == len(PREFIX) + 1], "scenarios+geometry+single operations")
+    all_ev += list(gev)
+    common.log("c14 geometry tier %.1fs (%d ordered pairs of boundary points)" % (time.time() - tg, len(GEO_POINTS) ** 2))
     # ---- random tier
     t1 = time.time()
     nh, ln = (600, 800) if th else (240, 150)
@@ -1054,6 +1197,7 @@ def correspondence(ctx):
     impl, ev2 = K.run_impl(hists, wd_ms=2000, budget=80)
     compare_and_judge(ctx, hists, model, impl, "random")
     compare_and_judge(ctx, hists, run_model_spec(hists), impl, "random", spec=True)
+    judge_sample(ctx, hists[:(60 if th else 30)], "random")
     nt += nontrivial_count(hists, model)
     for h in ex + hists:
         for op in h:
